@@ -1109,6 +1109,42 @@ def update_checks(model, M, rng, stats):
     return None
 
 
+# ------------------------------------------------------------------ range references (outside the loader model)
+
+def range_reference_check(rng):
+    """References of the form "stem{a:b}" stand for the objects stem a .. stem b-1: every one of them must have been
+    defined, whichever member is missing.  Judged on the implementation only (the loader model has no ranges).
+    -> (count, [finding])"""
+    impl.load()
+    from torchtree.core.utils import JSONParseError, process_objects
+    found, count = [], 0
+    for _ in range(12):
+        lo = rng.randint(0, 2)
+        hi = lo + rng.randint(2, 5)
+        stem = rng.choice(["p", "branches.", "w_"])
+        missing = rng.choice([None, lo, hi - 1] + list(range(lo, hi)))
+        defs = [{"id": f"{stem}{i}", "type": "Parameter", "tensor": [0.5 + i]} for i in range(lo, hi) if i != missing]
+        rng.shuffle(defs)
+        user = {"id": "user", "type": "ViewParameter", "parameter": f"{stem}{{{lo}:{hi}}}", "indices": "0:1"}
+        dic = {}
+        try:
+            for d in defs + [user]:
+                process_objects(copy.deepcopy(d), dic)
+            outcome = "accepted"
+        except JSONParseError:
+            outcome = "parse-error"
+        except Exception as e:      # noqa
+            outcome = f"{type(e).__name__}"
+        count += 1
+        want = "accepted" if missing is None else "parse-error"
+        if outcome != want:
+            which = "none" if missing is None else ("first" if missing == lo else "last" if missing == hi - 1 else "middle")
+            found.append((f"C13:range-reference:missing-{which}-member:{outcome}",
+                          f"reference {user['parameter']!r} with member {missing} undefined ({which}): loader outcome "
+                          f"{outcome}, expected {want}", dict(definitions=[d['id'] for d in defs], reference=user["parameter"])))
+    return count, found
+
+
 # ------------------------------------------------------------------ json_factory round trips
 
 def factory_roundtrips(rng, n_rounds):
@@ -1272,6 +1308,23 @@ def factory_roundtrips(rng, n_rounds):
                 b = "bl"
             return pre + with_taxa(lambda tx: TM.UnRootedTreeModel.json_factory("tree", nw, b, tx))
         attempt(f"UnRootedTreeModel.json_factory(taxa={taxa_arg},branch_lengths={bl_arg})", unrooted_spec, chk_unrooted)
+
+        # the same factory with the option keep_branch_lengths given explicitly as a false value and a newick string
+        # that carries (other) lengths: the supplied branch lengths are the ones in force
+        falsy = rng.choice([False, 0, None])
+        nw_len = nw        # the newick string of these round trips already carries lengths
+
+        def unrooted_spec_falsy():
+            return with_taxa(lambda tx: TM.UnRootedTreeModel.json_factory("tree", nw_len, bl, tx,
+                                                                          keep_branch_lengths=falsy))
+
+        def chk_unrooted_falsy(o, d):
+            got = d["tree"].branch_lengths()
+            if not same(got, torch.tensor(bl)):
+                return (f"keep_branch_lengths={falsy!r}: branch lengths {got.tolist()} instead of the supplied "
+                        f"{bl} (newick {nw_len})")
+            return None
+        attempt(f"UnRootedTreeModel.json_factory(keep_branch_lengths={falsy!r})", unrooted_spec_falsy, chk_unrooted_falsy)
 
         dates = [float(rng.randint(0, 2)) for _ in names]
         dates[rng.randrange(ntax)] = 0.0
@@ -1462,6 +1515,9 @@ def run(tier, seed, replay=None):
     t0 = time.time()
     n_factory, ffound = factory_roundtrips(rng, 12 if tier == "quick" else 100)
     for f in ffound:
+        direct.setdefault(f[0], f)
+    n_range, rfound = range_reference_check(random.Random(seed + 2))
+    for f in rfound:
         direct.setdefault(f[0], f)
     for f in static_checks(aliases):
         direct.setdefault(f[0], f)
